@@ -345,6 +345,13 @@ def lin_sweep(spec):
     return [s0 * j / 8.0 for j in range(0, 81)]
 
 
+def log_sweep(spec, dtn):
+    """log-uniform sweep over the whole dynamic range: s0 * 10^(k/2), k = -40..40 (capped at the overflow-free maximum)"""
+    s0, cap = own_scale(spec), x_cap(spec, dtn)
+    lo = 1e-30 if dtn == "float32" else 1e-280
+    return [min(max(s0 * 10.0 ** (k / 2.0), lo), cap) for k in range(-40, 41)]
+
+
 def kernel_inputs(case):
     """deterministic tensor of non-negative inputs for a kernel case"""
     rng = random.Random(case["data_seed"])
@@ -354,6 +361,8 @@ def kernel_inputs(case):
     eps = common.EPS[dtn]
     if case.get("linsweep"):
         return torch.tensor(lin_sweep(spec), dtype=DT[dtn])
+    if case.get("logsweep"):
+        return torch.tensor(log_sweep(spec, dtn), dtype=DT[dtn])
     if case.get("sweep"):
         # geometric sweep of the distance to the kernel's own scale (Huber: its branch point), both sides
         return torch.tensor(sweep_mults(dtn, s0), dtype=DT[dtn])
@@ -616,6 +625,9 @@ def corrector_data(case):
     sw = sweep_mults(dtn, 1.0) if case.get("sweep") else None
     if case.get("linsweep"):
         sw = [v / own_scale(spec) for v in lin_sweep(spec)]
+    if case.get("logsweep"):
+        capn = (0.5 * math.sqrt(x_cap(spec, dtn) / d)) ** 2
+        sw = [min(v, capn) / own_scale(spec) for v in log_sweep(spec, dtn)]
     for i in range(N):
         c = rng.random()
         nv = rng.choice(NORMS) * (s0 if rng.random() < 0.7 else 1.0)
@@ -1821,6 +1833,11 @@ def corner_corpus():
                     if kind != "tolerant" or pr[0] / abs(pr[1]) == 50.0:
                         K.append({"stream": "kernel", "spec": spec, "dtype": dtn, "shape": [len(lin_sweep(spec))], "data_seed": 2, "linsweep": True})
                 K.append({"stream": "kernel", "spec": spec, "dtype": dtn, "shape": [3, 4], "data_seed": 1000 + pi, "with_zero": True})
+                if pi in (0, len(CORPUS_SPECS[kind]) - 1):
+                    K.append({"stream": "kernel", "spec": spec, "dtype": dtn, "shape": [81], "data_seed": 5, "logsweep": True})
+                    for which in ("fast", "triggs"):
+                        Cr.append({"stream": which, "which": which, "dtype": dtn, "batch": [81], "d": 1 + pi % 3, "p": 1, "data_seed": 6,
+                                   "nograd": False, "force_zero_row": False, "logsweep": True, "spec": spec})
                 if pi == 0:
                     for shape in ([], [1], [2, 3]):
                         for mode, ds in (("neg", 11), ("neg", 12), ("neg", 13), ("negzero", 14), ("clean", 15)):
